@@ -493,6 +493,26 @@ def run(ctx):
     ctx.check(r is not None and isinstance(r, tuple) and r[2] is wl_mod, "R6.4", "fieldtype:WHITELIST-binding",
               "WHITELIST in base.py is not the constant of flow.record.whitelist", ft, "WHITELIST resolves to flow.record.whitelist.WHITELIST")
 
+    # ------------------------------------------------------------------ R6.7 declared field names are pairwise distinct
+    ctx.rule("R6.7", "a definition that declares the same field name twice is refused before the record class is generated (the class has one slot per "
+                     "NAME: with a duplicate the record does not have 'exactly the declared fields', and positional values shift into the metadata slots). "
+                     "Accepted spellings: `if name in seen: raise` with `seen.add(name)` in the loop over the fields, or a raise under a comparison of two len(...)")
+    dup_guard = None
+    for q7 in ("flow.record.base._generate_record_class", "flow.record.base.RecordDescriptor.__init__"):
+        f7 = prog.func(q7)
+        cfg7 = CFG(f7)
+        adds = {(norm(c.func.value), norm(c.args[0])) for c in calls_in(f7) if isinstance(c.func, ast.Attribute) and c.func.attr == "add" and len(c.args) == 1}
+        adds |= {(norm(n.value), norm(n.slice)) for n in ast.walk(f7) if isinstance(n, ast.Subscript) and isinstance(n.ctx, ast.Store)}
+        for rn in [n for n in cfg7.stmt_nodes() if isinstance(n.ast, ast.Raise)]:
+            for t, pol, _ in cfg7.facts_at(rn.id):
+                m7 = re.match(r"^([A-Za-z_][\w.]*) in ([A-Za-z_][\w.]*)$", t)
+                if pol and m7 and (m7.group(2), m7.group(1)) in adds:
+                    dup_guard = rn.ast
+                if t.count("len(") >= 2 and (("!=" in t and pol) or ("==" in t and not pol) or ("<" in t and pol) or (">" in t and pol)):
+                    dup_guard = rn.ast
+    ctx.check(dup_guard is not None, "R6.7", "_generate_record_class:duplicate-field-names", "no test refuses a definition that declares a field name twice: the declared field list and "
+              "the generated class's slots then differ", gen, "duplicate names raise RecordDescriptorError", key="R6.7:_generate_record_class:duplicate-field-names")
+
     dga = ctx.anchor_func("flow.record.base.DynamicFieldtypeModule.__getattr__")
     dcfg = CFG(dga)
     rets = [n for n in dcfg.stmt_nodes() if isinstance(n.ast, ast.Return)]
